@@ -1361,6 +1361,14 @@ func rulePanicReach(c *Ctx) {
 					}
 					n++
 					key := fmt.Sprintf("%s/panic#%d", fnKey(fn), n)
+					if live[b] {
+						// the branch is not a constant comparison: fold the whole method (a lookup of the type's
+						// size in an initialisation-time table, say) and see whether any path gets here
+						if sf := foldSmall(P, fn); sf.ok && !sf.panicAt[x] {
+							c.OK(key, P.pos(x.Pos()), fmt.Sprintf("no path of the method folded with its arguments unknown reaches this panic (%d outcomes)", len(sf.outs)))
+							continue
+						}
+					}
 					c.Check(!live[b], key, P.pos(x.Pos()), "unreachable once the constant switch on the type's size is folded for this instantiation", "an explicit panic is reachable on the reading path")
 				case *ssa.TypeAssert:
 					if x.CommaOk {
